@@ -100,6 +100,30 @@ DESC = {
     "C10-8": "container_untake slice branch zips (cotangent, accumulator) in the wrong order (accumulates into the caller's cotangent arrays)",
     "C19-7": "two edits: make_vjp restores the depth when its trace raises + grad pops one level when make_vjp raises (depth popped twice after a failed nested grad)",
     "C19-8": "make_jvp restores the depth captured when the operator object was built, not when it is called (stored jvp function failing at a deeper level)",
+    "C04-5": "two edits: repeat_to_match_shape returns the array only + the max/min JVP's tuple-axis branch indexes its result with [0] (NaN tangents for tuple axes without axis 0)",
+    "C04-6": "untake uses buffered `A[idx] += x` unless the index is a single ndarray (tuple indices holding integer arrays with repeats)",
+    "C07-5": "two edits: the eigh VJP guard tests isbox on the whole cotangent record + namedtuple cotangents are written into a plain zero record (eigenvector term lost at a zero traced cotangent)",
+    "C07-6": "checkpoint recomputes on fully unboxed saved inputs (second and higher derivatives through a checkpointed function vanish)",
+    "C09-5": "two edits: dot_adjoint fast path skips the dtype cast + dot VJPs drop match_complex (real 2-D left operand, complex 2-D right operand)",
+    "C09-6": "p-norm JVP loses the conjugate of x (forward mode, complex input, ord not in {None, 2, fro, nuc})",
+    "C11-5": "two edits: ArrayVSpace.zeros returns a numpy scalar for rank 0 + mut_add onto nothing ignores _mut_add's return value (rank-0 value: dense then indexed contribution)",
+    "C11-6": "sparse_add restarts from zeros when the accumulator is a float/complex scalar (np.float64 is a float subclass): rank-0 value with two dense contributions then an indexed one",
+    "C12-5": "two edits: _make_dict builds its result in sorted key order + its VJP walks the keys of the result (values receive each other's cotangents for unsorted keys)",
+    "C12-6": "SequenceVSpace._subval writes a slice entry by entry without the step",
+    "C13-5": "two edits: ContainerVSpace caches a fingerprint (child class, size) + __eq__ compares fingerprints only (shape / dtype / nesting of children ignored)",
+    "C13-6": "container inner product zips the values of its operands (dict entries paired by iteration order, not by key)",
+    "C14-5": "two edits: new_trace restores the depth in a finally + make_jvp pops the depth when its trace raises (depth popped twice after a caught forward-mode failure)",
+    "C14-6": "translate_jvp(None) builds the zero tangent in the argument's space instead of the output's (same idea as C17-4)",
+    "C15-5": "two edits: nograd_functions extended by numpy_boxes.nondiff_methods + take/compress moved to nondiff_methods (silently constant in both modes)",
+    "C15-6": "matrix norm guard lets ord=2 through (Frobenius formula for the spectral norm)",
+    "C16-5": "two edits: ArrayVSpace._mut_add returns a new wider array when dtypes differ + container_untake drops the accumulated entry's return value (float32 argument selected by a tuple argnum gets zeros)",
+    "C16-6": "unary_to_nary builds unary_f once per operator and reads the extra arguments from cells overwritten by every call (a make_jvp result used after a later evaluation)",
+    "C17-5": "two edits: wraps copies the wrapped function's __dict__ + primitive() unwraps anything flagged as a primitive (checkpoint(grad(p)) computes p)",
+    "C17-6": "trace() no longer compares the output's trace with its own (checkpoint at order >= 2 with an argument that does not affect the output)",
+    "C18-5": "two edits: VJPNode prefers a rule stored on the primitive + defvjp_argnums stores only the first registration there (re-registered rules ignored in reverse mode)",
+    "C18-6": "combo_check builds the keyword combinations as single-use iterators (only the first positional combination is checked)",
+    "C20-7": "two edits: one shared reverse-mode root node per nesting depth + cotangents accumulated on node slots (interleaved backward passes of two threads)",
+    "C20-8": "unary_to_nary keeps the current call's extra arguments in a list shared by all calls of one operator object",
     "C20-3": "TraceStack.__init__ with a mutable default list shared by all threads",
     "C20-4": "trace() saves/restores the depth through a module-level list shared by all threads",
 }
